@@ -234,16 +234,16 @@ def classify(ctx, u, f, s, keys, fold):
                     if in_inc or _step_on_every_iteration(ctx, f, s, steps):
                         return ('counted-break', '%s++ until == %s' % (ik.split('.')[-1], lim.split('#')[0]), None)
     # D2: for(;;) { n = f(); if (d <= n) break; d -= n; }  with n >= 1
-    if lp['cond'] is None and body is not None:
+    if body is not None:
         for x in walk(body):
-            if x.get('kind') == 'CompoundAssignOperator' and x.get('opcode') == '-=':
+            if x.get('kind') == 'CompoundAssignOperator' and x.get('opcode') == '-=' and _innermost_loop(x) is s:
                 dk, nk = keys.key(kids(x)[0]), keys.key(kids(x)[1])
                 F = ctx.facts(f)
                 fs = F.facts_at_ast(x) or frozenset()
                 guard = any(op == '<' and a == nk and b == dk for (op, a, b) in fs)
                 lo = _lower_bound_of_local(ctx, u, f, kids(x)[1])
                 only = [wk for (wk, y) in ws if wk == dk and y is not x]
-                if guard and lo is not None and lo >= 1 and not only:
+                if guard and lo is not None and lo >= 1 and not only and _step_on_every_iteration(ctx, f, s, [(dk, x)]):
                     return ('decreasing', '%s -= %s while %s > %s, %s >= %d' % (dk.split('#')[0], nk.split('#')[0], dk.split('#')[0], nk.split('#')[0], nk.split('#')[0], lo), None)
     # F: source-read loop with EOF exit
     if lp['cond'] is not None:
@@ -322,7 +322,22 @@ def _lower_bound_of_local(ctx, u, f, e):
     d = u.by_id.get((x.get('referencedDecl') or {}).get('id'))
     if d is None or not kids(d):
         return None
-    init = peel(kids(d)[-1])
+    # every definition of the local: its initialiser and plain assignments to it
+    defs = [peel(kids(d)[-1])]
+    for y in walk(f):
+        if y.get('kind') == 'BinaryOperator' and y.get('opcode') == '=' and \
+                (peel(kids(y)[0]).get('referencedDecl') or {}).get('id') == d['id']:
+            defs.append(peel(kids(y)[1]))
+        elif y.get('kind') in ('CompoundAssignOperator', 'UnaryOperator') and y.get('opcode') in ('+=', '-=', '*=', '/=', '++', '--') and \
+                (peel(kids(y)[0]).get('referencedDecl') or {}).get('id') == d['id']:
+            return None
+    los = [_lower_bound_of_call(ctx, u, f, init) for init in defs]
+    if any(v is None for v in los):
+        return None
+    return min(los)
+
+
+def _lower_bound_of_call(ctx, u, f, init):
     if init.get('kind') != 'CallExpr' or not callee(init) or callee(init)[0] != 'fn':
         return None
     tg = ctx.G.resolve_decl(callee(init)[1])
